@@ -80,6 +80,12 @@ pub fn buffer(max: usize) -> Vec<usize> {
     POSSIBLE_CYCLES.try_with(|pc| pc.iter().take(max).map(|ptr| ptr.as_ptr() as usize).collect()).unwrap_or_default()
 }
 
+/// Returns the address of the first buffered allocation (0 if the buffer is empty). Together with
+/// [`ObjSnapshot::next`] this allows walking the buffer while validating every address before reading it.
+pub fn buffer_first() -> usize {
+    POSSIBLE_CYCLES.try_with(|pc| pc.first().map_or(0, |ptr| ptr.as_ptr() as usize)).unwrap_or(0)
+}
+
 /// Returns `(collecting, finalizing, dropping)`.
 pub fn state_flags() -> (bool, bool, bool) {
     crate::state::verif_state_flags()
